@@ -289,8 +289,9 @@ def write_evidence(prop, tier, seed, spec, vcs, infos, und, hres, backends, wall
     ev = dict(property_id=prop, tier=tier, seed=seed, level=level, coverage=cov,
               assumptions=spec.get('assumptions', []) + ['scan: ' + h for h in scan_assumptions()],
               wall_s=round(wall, 2), violations=nviol)
-    os.makedirs(os.path.join(VERIF, 'evidence'), exist_ok=True)
-    json.dump(ev, open(os.path.join(VERIF, 'evidence', prop + '.json'), 'w'), indent=1, default=str)
+    edir = os.environ.get('PYVC_EVIDENCE_DIR') or os.path.join(VERIF, 'evidence')      # (selftests on scratch copies write elsewhere)
+    os.makedirs(edir, exist_ok=True)
+    json.dump(ev, open(os.path.join(edir, prop + '.json'), 'w'), indent=1, default=str)
 
 
 if __name__ == '__main__':
